@@ -11,7 +11,9 @@
 (*                                                                         *)
 (* Access pattern (lk.Touch, stateful): with entries k.. of the table in   *)
 (* an unreadable page, whether the lookup faults is a function of          *)
-(* (build, routine, k) ONLY — never of the secret index.  The variable-    *)
+(* (build, routine, k) ONLY — never of the secret index; and with all 15   *)
+(* entries readable and the page right after the table unreadable it must  *)
+(* not fault at all (nothing outside the table is read).  The variable-    *)
 (* time twin is logged as well and is REQUIRED to violate the relation     *)
 (* somewhere (non-vacuity of the observation).                             *)
 (***************************************************************************)
@@ -49,6 +51,8 @@ TouchVerdict(ev) ==
   IF ev.kind = "selv"
   THEN << TRUE, {}, touch,
           IF key \in DOMAIN vtSeen THEN [vtSeen EXCEPT ![key] = @ \cup {ev.faulted}] ELSE vtSeen @@ (key :> {ev.faulted}) >>
+  ELSE IF ev.k = 15 /\ ev.faulted
+       THEN << FALSE, {}, touch, vtSeen >>        \* the whole table is readable: a fault means a read OUTSIDE the 15-entry table
   ELSE IF key \in DOMAIN touch
        THEN << touch[key] = ev.faulted, IF ev.k = 15 THEN {"touch_all_readable"} ELSE {"touch_ct"}, touch, vtSeen >>
        ELSE << TRUE, {}, touch @@ (key :> ev.faulted), vtSeen >>
